@@ -13,7 +13,7 @@ open Proto LLH Grad ParamLayout
       sob <sigDep> <bkgDep> <s> <b> <ds> <db>   -> <grad>
       prod <dep1> <dep2> <r1> <r2> <dr1> <dr2>  -> <grad>
       stack <opa> <ns> <nFit> <nsIdx> <K> <gp: K*2 ints> <W: K> <J> then per dataset:
-            <N> <Y: K> <dY: K*2> <nSel> <leaves: nSel*K*4 = rA,rB,dA,dB>
+            <N> <parA 0|1> <parB 0|1> <Y: K> <dY: K*2> <nSel> <leaves: nSel*K*4 = rA,rB,dA,dB>
           -> <value> <grads> <nsgrad2>
 -/
 
@@ -40,8 +40,8 @@ def parseLeaves (K : Nat) (xs : List Float) : List (List (Leaf Float)) :=
     | _ => { rA := 0, rB := 0, dA := 0, dB := 0 })
 
 def parseDatasets (K : Nat) : List String → List (DSIn Float)
-  | n :: y :: dy :: _nsel :: lv :: rest =>
-      { N := pN n, Y := pList pF y, dY := chunks 2 (pList pF dy), ev := parseLeaves K (pList pF lv) }
+  | n :: pa :: pb :: y :: dy :: _nsel :: lv :: rest =>
+      { N := pN n, parA := pB pa, parB := pB pb, Y := pList pF y, dY := chunks 2 (pList pF dy), ev := parseLeaves K (pList pF lv) }
         :: parseDatasets K rest
   | _ => []
 
